@@ -208,6 +208,10 @@ c16("c16_fifo_drop_insert", "fifo", "value destructor re-enters when insert rele
 c16("c16_fifo_drop_remove", "fifo", "value destructor re-enters after remove", "nested = remove")
 c16("c16_fifo_drop_clear", "fifo", "value destructor re-enters when clear releases records", "nested = remove")
 c16("c16_fifo_drop_evictall", "fifo", "value destructor re-enters when evict_all releases records", "nested = remove")
+c16("c16_fifo_drop_replace", "fifo", "value destructor of a REPLACED resident entry re-enters", "outer insert over resident key 16", quick=True)
+c16("c16_fifo_drop_insdisk_resident", "fifo", "value destructor of a resident entry displaced by a disk-only insert re-enters", "outer disk-only insert over resident key 16", quick=True)
+c16("c16_fifo_listener_insdisk_resident", "fifo", "listener re-enters when a disk-only insert displaces a resident entry", "outer disk-only insert over resident key 17")
+c16("c16_lru_drop_insdisk_resident", "lru", "value destructor of a displaced resident entry re-enters (LRU)", "outer disk-only insert over resident key 16")
 c16("c16_fifo_listener_insert_anyaction", "fifo", "listener re-enters with a symbolic nested action", "nested = symbolic get / remove / insert")
 c16("c16_lru_listener_insert", "lru", "listener re-enters during insert (LRU)", "nested = remove")
 c16("c16_lru_drop_insert", "lru", "value destructor re-enters (LRU)", "nested = remove")
@@ -255,6 +259,11 @@ h("C11", "foyer-memory", INF, "c11_x1_close_flag_take", "X1 close-flag identity 
   "one key; take by id or by key (symbolic)", quick=True, tq=900, tt=3000, unwind=10, miri=True, stubs=MEMORY_STUBS)
 h("C11", "foyer-memory", INF, "c11_x1_close_flag_fetch_or_take", "X1 close-flag identity (fetch_or_take)", "InflightManager::{new,enqueue,fetch_or_take}",
   "one key, leader without deferred fetch", quick=False, tq=900, tt=3000, unwind=10, miri=True, stubs=MEMORY_STUBS, exp=True)
+for nm, what in (("c11_x2_late_disk_hit", "fetch task parked in its disk-lookup phase (FetchOptional), flag set, late hit"), ("c11_x2_late_origin_result", "fetch task parked in its origin phase (FetchRequired), flag set, late result"),
+                 ("c11_x2_disk_hit_not_closed", "disk-lookup phase, flag clear: the hit is inserted"), ("c11_x2_origin_result_not_closed", "origin phase, flag clear: the result is inserted")):
+    h("C11", "foyer-memory", RAW, nm, "X2 fetch-task side: a late fetch result is dropped once the close flag is set, and inserted otherwise: " + what,
+      "RawFetch::poll, RawFetch::handle_target, RawCache::{insert,insert_with_properties_inner,get}", "one key, explicit insert of v_new (symbolic) before the poll, late answer v_old (symbolic, != v_new), close flag literal per harness",
+      quick=True, tq=600, tt=1800, unwind=5, instantiation=INST["fifo"], stubs=MEMORY_STUBS + TAKE, exp=True)
 h("C17", "foyer-memory", INF, "c17_inflight_collision", "in-flight table keeps colliding keys apart", "InflightManager::{enqueue,take}",
   "keys 16,17 with identical 64-bit hash; 3 enqueues, takes in symbolic order", quick=False, tq=900, tt=3000, unwind=10, miri=True, stubs=MEMORY_STUBS, exp=True)
 
@@ -288,6 +297,15 @@ for nm in W1_NAMES:
     h("C07", "foyer-storage", BUF, nm, "W1 splitter step from a literal pre-state structure + W2 index page / reader / scanner agreement (DOES NOT DISCHARGE: 17-41 GB)", SPL,
       "structure encoded in the name: block pages, blob page, part page, index count, pages per entry; entry lengths symbolic within their last page",
       quick=False, tq=900, tt=3000, stubs=STORAGE_STUBS[:5] + HEAD + [STORAGE_STUBS[-1]], exp=True)
+LITE_FUNCS = "Splitter::{split,split_blob,split_block,seal_blob}, BlobIndex::{write,reset,is_full,capacity}, BufferEntryInfo::aligned, IoSlice::slice (BlobIndex::seal stubbed: page content is not examined)"
+LITE_QUICK = {"c07_lite_b4_s0_1_0", "c07_lite_b4_s0_2_1", "c07_lite_b4_n2_fresh_12", "c07_lite_b4_n2_cont_11", "c07_lite_b256_c169_n1", "c07_lite_b256_c168_n2"}
+for nm in ['c07_lite_b4_s0_1_0', 'c07_lite_b4_s1_1_0', 'c07_lite_b4_s2_1_0', 'c07_lite_b4_s3_1_0', 'c07_lite_b4_s4_1_0', 'c07_lite_b4_s0_2_1', 'c07_lite_b4_s0_3_1', 'c07_lite_b4_s0_3_2', 'c07_lite_b4_s0_4_1', 'c07_lite_b4_s0_4_3', 'c07_lite_b4_s1_2_1', 'c07_lite_b4_s1_3_2', 'c07_lite_b4_s2_2_1', 'c07_lite_b4_n2_fresh_11', 'c07_lite_b4_n2_fresh_12', 'c07_lite_b4_n2_cont_11', 'c07_lite_b4_n2_cont_21', 'c07_lite_b4_n3_fresh_111', 'c07_lite_b256_c169_n1', 'c07_lite_b256_c168_n2', 'c07_lite_b256_c100_n2', 'c07_lite_b256_near_end']:
+    h("C07", "foyer-storage", BUF, nm, "W1-lite: split context after a batch == layout rules; invariant preserved", LITE_FUNCS,
+      "literal structure encoded in the name (block pages; blob page, part page, index count of the pre-state; pages per entry, or all of 1/2/3 pages for *_sB_P_C); entry lengths symbolic within their last page",
+      quick=nm in LITE_QUICK, tq=600, tt=1800, unwind=10, stubs=STORAGE_STUBS[:5] + HEAD + [STORAGE_STUBS[-1], "BlobIndex::seal -> fresh page (no checksum, no copy)"])
+for nm in ['c07_lite_b4_n2_fresh_22', 'c07_lite_b4_n2_fresh_31', 'c07_lite_b4_n2_mid_11', 'c07_lite_b4_n3_fresh_121', 'c07_lite_b256_c169_n2', 'c07_lite_b256_c168_n3']:
+    h("C07", "foyer-storage", BUF, nm, "W1-lite (mid-batch block split with a non-empty part: CBMC reports an unwinding failure of Splitter::split's loop at any bound although the same structure terminates natively)", LITE_FUNCS,
+      "literal structure encoded in the name", quick=False, tq=600, tt=1800, unwind=10, exp=True)
 h("C07", "foyer-storage", BUF, "c07_w1_inv_init", "W1 base case: SplitCtx::new satisfies the invariant", "SplitCtx::new", "block 16 KiB, index 4 KiB", quick=True, tq=300, exp=True)
 h("C07", "foyer-storage", BUF, "c07_w4_index_slots", "W4 index slot addressing at the boundary counts", "BlobIndex::{write,is_full,capacity}, BlobEntryIndex::{write,read}",
   "count in {0,1,168,169,170}; slot contents symbolic", quick=True, tq=300, exp=True)
@@ -321,7 +339,7 @@ for nm, kind, q in (("c01_store_load_disk_entry", "Entry(any key, any value)", T
 for nm, what, q in (("c01_store_load_queue_first_same", "queued 16, lookup 16", True), ("c01_store_load_queue_first_twin", "queued 16, lookup 17 (identical hash), disk answers Entry(any,any)", True),
                     ("c01_store_load_queue_first_twin_miss", "queued 17, lookup 16, disk misses", False), ("c01_store_load_queue_first_other", "queued 16, lookup 32", False)):
     h("C01", "foyer-storage", ST, nm, "L2 write queue consulted first; colliding twin not aliased", STF, what + "; queued value symbolic", quick=q, tq=600, tt=1800, unwind=6, miri=True, extra_props=["C17"], exp=True)
-for nm, what, q in (("c12_store_enqueue_admit", "filter admits", True), ("c12_store_enqueue_reject", "filter rejects", True), ("c12_store_enqueue_throttled", "filter throttles", False),
+for nm, what, q in (("c12_store_enqueue_admit", "filter admits", True), ("c12_store_enqueue_reject", "filter rejects", True), ("c12_store_enqueue_throttled", "filter throttles", True),
                     ("c12_store_enqueue_forced_reject", "forced although the filter rejects", True)):
     h("C12", "foyer-storage", ST, nm, "E1 admission decision of Store::enqueue", STF, what + "; key and value symbolic", quick=q, tq=600, tt=1800, unwind=6, miri=True, exp=(nm in ("c12_store_enqueue_admit", "c12_store_enqueue_forced_reject")))
 TB = "engine::block::tombstone::verif_kani"
